@@ -259,6 +259,8 @@ func NormNums(v any) any {
 		return x
 	case wamp.URI:
 		return string(x)
+	case complex128:
+		return fmt.Sprintf("complex%v", x)
 	case []wamp.ID:
 		out := make(wamp.List, len(x))
 		for i, e := range x {
